@@ -7,7 +7,7 @@ from vlib.oracles import dense
 ID = "C09"
 LEVEL = "exploration"
 RULE = ("each case: one of {Spring, KelvinVoigtElement (force/compliance form), MaxwellElement} created WITHOUT l_ref on a "
-        "TwoPointInteraction (all pairings of fixed Frame / PointMass / RigidBody, offsets) or on a Revolute joint (angle0 in "
+        "TwoPointInteraction (all pairings of fixed Frame / PointMass / RigidBody, offsets) or on a Revolute joint (bodies, or cross-sections xi of curved rods; angle0 in "
         "[-3pi, 3pi] or default, random joint frames, t0 != 0), interaction added to the system or not, law added before or "
         "after the interaction; the real System.assemble() (including consistent initial conditions) must succeed and "
         "E_pot(t0,q0) = 0, h(t0,q0,u0) = 0, la_c(t0,q0,u0) = 0 with the bodies at rest. distinct = law + pairing + "
@@ -23,7 +23,8 @@ META = {
 PAIRS_TPI = [("fixed_frame", "rigid_body"), ("fixed_frame", "point_mass"), ("point_mass", "point_mass"), ("rigid_body", "rigid_body"),
              ("rigid_body", "point_mass"), ("point_mass", "fixed_frame"), ("rigid_body", "fixed_frame"),
              ("moving_frame", "point_mass"), ("rigid_body", "rotating_frame")]
-PAIRS_REV = [("fixed_frame", "rigid_body"), ("rigid_body", "rigid_body"), ("rigid_body", "fixed_frame")]
+PAIRS_REV = [("fixed_frame", "rigid_body"), ("rigid_body", "rigid_body"), ("rigid_body", "fixed_frame"),
+             ("rod", "rigid_body"), ("rigid_body", "rod"), ("rod", "rod"), ("fixed_frame", "rod")]
 
 
 def cases(tier, seed):
@@ -121,9 +122,25 @@ def run_case(spec, ctx):
             subs, mots, inter, info = forcegen.build_tpi(rng, tuple(spec["pair"]))
         else:
             subs, mots = [], []
+            xis = []
             for kind, nm in zip(spec["pair"], ("a", "b")):
-                s, _, _, m = gen.make_subsystem(rng, kind, nm)
-                subs.append(s); mots.append(m)
+                if kind == "rod":
+                    # joint on a rod cross-section (xi1 / xi2 of the joint); the rod starts in its curved, twisted, stress-free
+                    # reference configuration, so the only force in the system is the one of the attached element
+                    from vlib import rodlite
+                    s, xi, rinfo = rodlite.simple_rod(rng, name=nm, nel=int(rng.integers(2, 5)), curved=True)
+                    m = None
+                    if rinfo["interp"] == "R12" and rinfo["xi_class"] == "interior":
+                        # joints on non-nodal cross-sections of curved R12 rods do not assemble (finding recorded under C05,
+                        # independent of force laws): such a rod is connected at a node here
+                        xi = float(int(rng.integers(0, rinfo["nel"] + 1))) / rinfo["nel"]
+                        rinfo = {**rinfo, "xi": xi, "xi_class": "node(moved from interior: R12)"}
+                    det.setdefault("rods", []).append(rinfo)
+                    ctx.cls(f"rod_end:{rinfo['interp']}{rinfo['p']}:xi={rinfo['xi_class']}")
+                else:
+                    s, _, _, m = gen.make_subsystem(rng, kind, nm)
+                    xi = None
+                subs.append(s); mots.append(m); xis.append(xi)
             placement = "given" if rng.random() < 0.6 else "default"
             r_OJ0 = rng.normal(size=3) if placement == "given" else None
             from vlib.oracles import quat_to_mat
@@ -132,6 +149,10 @@ def run_case(spec, ctx):
             kw = {}
             if spec["angle0"] == "random":
                 kw["angle0"] = float(rng.uniform(-3 * np.pi, 3 * np.pi))
+            if xis[0] is not None:
+                kw["xi1"] = xis[0]
+            if xis[1] is not None:
+                kw["xi2"] = xis[1]
             inter = C.Revolute(subs[0], subs[1], axis, r_OJ0=r_OJ0, A_IJ0=A_IJ0, **kw)
             info = {"axis": axis, "placement": placement, **kw}
         for s in subs:  # at rest
@@ -190,7 +211,7 @@ def run_case(spec, ctx):
                 ctx.violation(f"{spec['law']}@{spec['sub']}.la_c", "compliance-form force is nonzero in the initial configuration", {**ex, "la_c": la})
             if np.abs(system.la_c0).max() > tol:
                 ctx.violation(f"{spec['law']}@{spec['sub']}.la_c0", "initial compliance force returned by assembly is nonzero", {**ex, "la_c0": system.la_c0})
-        if spec["sub"] == "rev" and spec["angle0"] == "random" and abs(l0 - info["angle0"]) > 1e-9:
+        if spec["sub"] == "rev" and spec["angle0"] == "random" and abs(l0 - info["angle0"]) > 1e-9 * (1 + abs(info["angle0"])):
             ctx.violation("Revolute.l", "initial joint angle differs from angle0", {**ex})
     ctx.sig([det], nontrivial=abs(l0) > 1e-6)
     ctx.sample(det)
